@@ -3,6 +3,7 @@
 package pow
 
 import (
+	"github.com/iotaledger/iota.go/curl/bct"
 	"github.com/iotaledger/iota.go/consts"
 	"github.com/iotaledger/iota.go/curl"
 	"github.com/iotaledger/iota.go/encoding/b1t6"
@@ -125,4 +126,93 @@ func verifRefHash(powDigest []byte, nonce uint64) trinary.Trits {
 	c.Absorb(buf)
 	d, _ := c.Squeeze(consts.HashTrinarySize)
 	return d
+}
+
+// ---------------------------------------------------------------------------------------------
+// The blocks the worker hands to the batched Curl, compared on the INPUT side.
+
+var (
+	verifABCalls int
+	verifABBufs  [3][][]int8
+	verifABCount [3]int
+)
+
+// replaces (*bct.Curl).Absorb in VerifC11WorkerBlocks: records a copy of every lane buffer
+func verifStubBctAbsorb(c *bct.Curl, src []trinary.Trits, tritsCount int) error {
+	k := verifABCalls
+	verifABCalls++
+	verifABCount[k] = tritsCount
+	verifABBufs[k] = make([][]int8, len(src))
+	for j := range src {
+		verifABBufs[k][j] = append([]int8{}, src[j]...)
+	}
+	return nil
+}
+
+// replaces (*bct.Curl).CopyState: an arbitrary state (what the lane test then says is arbitrary anyway)
+func verifStubBctCopyState(c *bct.Curl, l, h []uint) {}
+
+// VerifC11WorkerBlocks(batches): for every digest and every start nonce, batch k hands the batched Curl
+// exactly 64 blocks of 243 trits, block j = b1t6(digest) || b1t6(little-endian bytes of start+64k+j) ||
+// 0 0 0 — i.e. the block trailingZeros/Score hash for that nonce — for ALL 64 lanes; compared trit by trit on
+// the input side, so no sponge reasoning is involved (a counterexample is a start nonce, found by bit-vector
+// reasoning about the carry, and replays natively through the real worker).
+//
+//verif:run quick batches=2
+//verif:run thorough batches=3
+//verif:replace checkStateTrits verifStubCheckState
+//verif:replace (*github.com/iotaledger/iota.go/curl/bct.Curl).Absorb verifStubBctAbsorb
+//verif:replace (*github.com/iotaledger/iota.go/curl/bct.Curl).CopyState verifStubBctCopyState
+//verif:timeout 300
+func VerifC11WorkerBlocks(batches int) {
+	w := New(1)
+	digest := verifBytes("digest", 32)
+	start := verifU64("start")
+	if !verifSymbolic() {
+		for k := 0; k < 16; k++ {
+			d := append([]byte{}, digest...)
+			d[31] ^= byte(k)
+			for _, t := range []uint{1, 2, 3} {
+				var done uint32
+				var counter uint64
+				nonce, err := w.worker(d, start, t, &done, &counter)
+				verifAssert("blocks.native.noerror", err == nil)
+				verifAssert("blocks.native.zeros", trailingZeros(d, nonce) >= int(t))
+			}
+		}
+		return
+	}
+	for k := 0; k < batches; k++ {
+		verifCSRet[k] = 64 // the lane test never finds anything: all batches are built
+	}
+	var done uint32
+	var counter uint64
+	verifCSCalls, verifCSMax, verifCSDone = 0, batches, &done
+	verifABCalls = 0
+	_, err := w.worker(digest, start, 1, &done, &counter)
+	verifAssert("blocks.done", err == ErrDone)
+	verifAssert("blocks.batches", verifABCalls == batches && verifCSCalls == batches)
+	n := start
+	for k := 0; k < batches && k < verifABCalls; k++ {
+		verifAssert("blocks.shape", verifABCount[k] == consts.HashTrinarySize && len(verifABBufs[k]) == 64)
+		for j := 0; j < 64 && j < len(verifABBufs[k]); j++ {
+			want := make(trinary.Trits, consts.HashTrinarySize)
+			m := b1t6.Encode(want, digest)
+			var nb [8]byte
+			v := n + uint64(j)
+			for i := 0; i < 8; i++ {
+				nb[i] = byte(v >> (8 * uint(i)))
+			}
+			b1t6.Encode(want[m:], nb[:])
+			got := verifABBufs[k][j]
+			same := len(got) >= consts.HashTrinarySize
+			for i := 0; same && i < consts.HashTrinarySize; i++ {
+				if got[i] != want[i] {
+					same = false
+				}
+			}
+			verifAssert("blocks.lane.block", same)
+		}
+		n += 64
+	}
 }
